@@ -29,4 +29,5 @@ let table : (string * (BinNums.coq_N list -> BinNums.coq_N list)) list = [
   ("mon_c01", MonDuo.mon_c01);
   ("chk_duo", MonDuo.chk_duo);
   ("mon_c09", MonGate.mon_c09);
+  ("mon_contract", MonContract.mon_contract);
 ]
